@@ -40,9 +40,14 @@ theorem fKeyState_stale (layout : Layout) (cfg : Cfg) (s : FState) (key modifier
   · rfl
   · next value _ =>
     simp only [processKeyValue_stale]
+    have e1 : (withSugg L (processKeyValue cfg s value)).rbuf = (processKeyValue cfg s value).rbuf := rfl
+    have e2 : (withSugg L (processKeyValue cfg s value)).pending = (processKeyValue cfg s value).pending := rfl
+    simp only [e1, e2]
     split
-    · split <;> rfl
     · rfl
+    · split
+      · split <;> rfl
+      · rfl
 
 theorem fBackspaceState_stale (s : FState) (ctrl : Bool) (L : List Rank) :
     fBackspaceState (withSugg L s) ctrl = (withSugg L (fBackspaceState s ctrl).1, (fBackspaceState s ctrl).2) := by
@@ -88,7 +93,17 @@ theorem fKey_stale (w : World) (l : Layout) (cfg : Cfg) (a b : FState) (key modi
   unfold fKey
   rw [fKeyState_stale]
   cases hk : fKeyState l cfg b key modifier with
-  | some b' => exact fCreateSuggestion_stale w cfg b' L
+  | some b' =>
+    simp only [Option.map_some]
+    have e1 : (withSugg L b').rbuf = b'.rbuf := rfl
+    have e2 : (withSugg L b').pending = b'.pending := rfl
+    simp only [e1, e2]
+    split
+    · rename_i hidle
+      refine ⟨rfl, ⟨L, rfl⟩, fun _ hne => ?_⟩
+      simp only [Bool.and_eq_true, List.isEmpty_iff] at hidle
+      exact absurd hidle.1 hne
+    · exact fCreateSuggestion_stale w cfg b' L
   | none =>
     simp only [Option.map_none]
     refine ⟨?_, ⟨L, rfl⟩, heq⟩
